@@ -229,9 +229,130 @@ func bytesEqTerm(a, b []value) *Term {
 			}
 			continue
 		}
+		xo, xt := a[i].(*opaque)
+		yo, yt := b[i].(*opaque)
+		if xt || yt {
+			// proto.Marshal tokens: equal bytes iff equal message content (deterministic encoder)
+			if !xt || !yt || xo.kind != "proto" || yo.kind != "proto" {
+				panic(unsupported{"comparison of marshalled-message bytes with other bytes"})
+			}
+			tx, ty := xo.p.(*protoToken), yo.p.(*protoToken)
+			if !types.Identical(tx.t, ty.t) {
+				panic(unsupported{"comparison of marshalled bytes of two message types"})
+			}
+			c := deepEqTerm(tx.v, ty.v, tx.t)
+			if c.IsFalse() {
+				return FalseT
+			}
+			cs = append(cs, c)
+			continue
+		}
 		cs = append(cs, Eq(termOf(a[i]), termOf(b[i])))
 	}
 	return And(cs...)
+}
+
+// deepEqTerm is the term "x and y, values of static type t, have the same content"
+// (pointers are followed; proto bookkeeping fields are ignored; nil and empty slices are the
+// same content, as on the wire).
+func deepEqTerm(x, y value, t types.Type) *Term {
+	switch tt := t.Underlying().(type) {
+	case *types.Pointer:
+		px, _ := x.(*value)
+		py, _ := y.(*value)
+		if px == nil || py == nil {
+			return BoolT(px == nil && py == nil)
+		}
+		return deepEqTerm(*px, *py, tt.Elem())
+	case *types.Struct:
+		sx, ok1 := x.(structure)
+		sy, ok2 := y.(structure)
+		if !ok1 || !ok2 {
+			return eqTerm(x, y)
+		}
+		var cs []*Term
+		for i := range sx {
+			switch tt.Field(i).Name() {
+			case "state", "sizeCache", "unknownFields":
+				continue
+			}
+			c := deepEqTerm(sx[i], sy[i], tt.Field(i).Type())
+			if c.IsFalse() {
+				return FalseT
+			}
+			cs = append(cs, c)
+		}
+		return And(cs...)
+	case *types.Slice:
+		sx, _ := x.([]value)
+		sy, _ := y.([]value)
+		if len(sx) != len(sy) {
+			return FalseT
+		}
+		if b, ok := tt.Elem().Underlying().(*types.Basic); ok && b.Kind() == types.Uint8 {
+			return bytesEqTerm(sx, sy)
+		}
+		var cs []*Term
+		for i := range sx {
+			c := deepEqTerm(sx[i], sy[i], tt.Elem())
+			if c.IsFalse() {
+				return FalseT
+			}
+			cs = append(cs, c)
+		}
+		return And(cs...)
+	case *types.Interface:
+		ix, ok1 := x.(iface)
+		iy, ok2 := y.(iface)
+		if !ok1 || !ok2 {
+			panic(unsupported{"deep comparison of non-interface values at interface type"})
+		}
+		if !sameType(ix.t, iy.t) {
+			return FalseT
+		}
+		if ix.t == nil {
+			return TrueT
+		}
+		return deepEqTerm(ix.v, iy.v, ix.t)
+	case *types.Map:
+		mx, _ := x.(*omap)
+		my, _ := y.(*omap)
+		nx, ny := 0, 0
+		if mx != nil {
+			nx = len(mx.entries)
+		}
+		if my != nil {
+			ny = len(my.entries)
+		}
+		if nx == 0 && ny == 0 {
+			return TrueT
+		}
+		if nx != ny {
+			return FalseT
+		}
+		var cs []*Term
+		for _, ex := range mx.entries {
+			if !ex.conc {
+				panic(unsupported{"deep comparison of maps with symbolic keys"})
+			}
+			ey, ok := my.idx[ex.ck]
+			if !ok {
+				for _, e := range my.entries {
+					if !e.conc {
+						panic(unsupported{"deep comparison of maps with symbolic keys"})
+					}
+				}
+				return FalseT
+			}
+			c := deepEqTerm(ex.val, ey.val, tt.Elem())
+			if c.IsFalse() {
+				return FalseT
+			}
+			cs = append(cs, c)
+		}
+		return And(cs...)
+	}
+	return eqTerm(x, y)
 }
 
 // bytesLtTerm is the term "a < b" (lexicographic).
